@@ -64,12 +64,12 @@ add("C09", "proptest-sharded+hooks",
     "Needs cargo feature verif-hooks (records quantised coefficients inside Trainer::train). liblinear trusted as a function of its inputs within one call.")
 add("C10", "proptest-sharded+hooks",
     "property-based testing: trainer's example store (verif-hooks accessor) against reference feature extraction, checked after every added sentence",
-    "Generated corpora mixing tokenized, partial and unannotated sentences x window/n-gram sizes incl. 0 and n > window x dictionaries and buckets; the stored examples must equal one reference example per annotated boundary with label and feature multiset.",
-    "Needs cargo feature verif-hooks (read-only Trainer::verif_examples).")
+    "Generated corpora mixing tokenized, partial and unannotated sentences x window/n-gram sizes incl. 0 and n > window x dictionaries and buckets; the stored examples must equal one reference example per annotated boundary with label and feature multiset. Sub-check learner-input hands the stored problem (hook Trainer::verif_problem) to liblinear itself and requires the quantised solution Trainer::train records, so that nothing can happen to the examples between the store and the learner.",
+    "Needs cargo feature verif-hooks (read-only Trainer::verif_examples, Trainer::verif_problem).")
 add("C11", "proptest-sharded",
     "property-based testing: totality sweep over training configurations and degenerate corpora with usability invariants on every returned model",
-    "Parameters from {0,1,2,3,4,7}, all solvers, corpora incl. empty / single-class / all-unknown / tagged / tag dictionary: no panic in new/add_example/train; every returned model round-trips, has 16-bit weights, is accepted by Predictor::new with and without tags and predicts/tags arbitrary text.",
-    "A liblinear hang is mapped to exit 2 by a watchdog.")
+    "Parameters from {0,1,2,3,4,7}, all solvers, corpora incl. empty / single-class / all-unknown / tagged / tag dictionary: no panic in new/add_example/train; every returned model round-trips, has 16-bit weights, is accepted by Predictor::new with and without tags and predicts/tags arbitrary text. Size cases: tokens and dictionary words of 127..70,000 characters, a dictionary giving a model that decodes to > 100 MB. The same generated configurations also go through the shipped train program (files in, model.zst out).",
+    "A liblinear hang is mapped to exit 2 by a watchdog. The train tool is rebuilt from /repo into /verif/target/repo-bins by the check script.")
 add("C12", "proptest-sharded+hooks",
     "property-based testing: set equality of candidate lists against a reference reading of the corpus, behavioural clauses on predictions, stored scores against the recorded classifier (verif-hooks) applied to reference tag features",
     "Generated tagged corpora with repeated, ambiguous tokens and tag dictionaries; mirror-decoded candidate lists, vector sizes, predictions on corpus and fresh sentences and every stored candidate score are compared with independent references; the feature universe of each recorded classifier must equal the documented tag features of its training occurrences.",
@@ -82,7 +82,7 @@ add("C19", "proptest-sharded+real-CLI",
 add("C20", "proptest-sharded+real-CLI",
     "property-based testing: reference output assembled from library calls vs the real predict/evaluate binaries over generated models, input streams and flag sets; metamorphic mode equivalence",
     "Generated models (.zst) x input streams (empty lines, NUL, delimiters, half-width characters) x all 16 flag subsets x wsconst lists for predict; generated tokenized references x metrics x flags for evaluate; stdout compared with the library pipeline, exit status and panics checked.",
-    "Under-specified spots are accepted in all reasonable variants (see evidence assumptions); lines ending in CR excluded by construction.")
+    "Under-specified spots are accepted in all reasonable variants (see evidence assumptions). Sub-check train runs the shipped train program against the same pipeline performed through the library and compares the discrete content of the two models (weights differ in the last digits between processes because of a per-process hash seed).")
 
 add("C16", "enumeration+proptest-sharded (separate binary vcheck-tantivy)",
     "exhaustive enumeration of all Unicode scalar values for the normaliser + property-based testing of the Tantivy token stream against the library pipeline (invariants + differential)",
@@ -91,7 +91,7 @@ add("C16", "enumeration+proptest-sharded (separate binary vcheck-tantivy)",
 add("C17", "proptest-sharded+prefix-enumeration",
     "property-based testing: generated structured KyTea files against a reference converter (RefKytea) + exhaustive enumeration of every proper prefix per file",
     "The harness's own KyTea writer/reader (validated byte-identically on resources/kytea-model.bin) produces structured files with shuffled tries, cut entries, skipped 0x04 letters, 0-8 member dictionaries, tag slots and sub-word dictionaries; the mirror-decoded converted model must equal the reference conversion and predict as RefScore dictates; every proper prefix must give Err (a cut inside the unread tail of a real file may be accepted only with an identical model).",
-    "The L/I/R slot order inside dict_vec is pinned from the converter (no KyTea source offline). Arbitrary corrupt files are outside the property.")
+    "The L/I/R slot order inside dict_vec is pinned from the converter (no KyTea source offline). Arbitrary corrupt files are outside the property. The shipped convert_kytea_model program (rebuilt from /repo by the check script) is run on generated files as well and its output compared with the same reference.")
 
 add("C13", "proptest-sharded+worker-processes",
     "property-based testing: differential across one worker process per vaporetto feature subset (7 quick / 48 thorough builds), every build tied to the reference model",
@@ -99,8 +99,8 @@ add("C13", "proptest-sharded+worker-processes",
     "Workers are rebuilt from /repo by the check script (tools/build_workers.sh). Quick compares 7 subsets, thorough all 48.")
 add("C18", "proptest-sharded in an ASan + debug-assertions build (+ libFuzzer in thorough)",
     "property-based testing and coverage-guided fuzzing in builds where unchecked preconditions are checked: AddressSanitizer, debug assertions (guards of get_unchecked / is_char_boundary) and the standard library's unsafe-precondition checks",
-    "The generators and oracles of C01/C06/C08/C14/C15/C03/C04 are re-executed in a nightly build with -Zsanitizer=address -C debug-assertions=on; a supervisor turns an abort into a violation with the traced case. Thorough adds a libFuzzer campaign (byte decoder -> same raw generators, oracle in the target).",
-    "Sanitizer sweeps cover the default feature set only; C13 covers all feature subsets without sanitizers. Needs the nightly toolchain of the image.")
+    "The generators and oracles of C01/C06/C08/C14/C15/C03/C04 are re-executed in a nightly build with -Zsanitizer=address -C debug-assertions=on; a supervisor turns an abort into a violation with the traced case. Sub-check feature-configurations sends generated models x texts to one worker per vaporetto feature subset compiled with debug assertions (predict, fill_tags, serialise + reload, writers, filters); a dying or panicking worker is a violation. Thorough adds a libFuzzer campaign (byte decoder -> same raw generators, oracle in the target).",
+    "AddressSanitizer sweeps cover the default feature set; the other feature subsets (7 quick / 48 thorough) run the same kind of workload in worker processes compiled with debug assertions (checked unsafe preconditions, no AddressSanitizer). Needs the nightly toolchain of the image.")
 
 PLANNED = {
 }
@@ -134,7 +134,7 @@ def main():
             "guard": "cargo feature verif-hooks (crate vaporetto)",
             "enable": "the harness crates depend on /repo/vaporetto by path with features = [\"kytea\", \"train\", \"verif-hooks\"]",
             "baseline_off_cmd": BASELINE_OFF,
-            "source_commits": ["957f69e"],
+            "source_commits": ["957f69e", "c03a278"],
             "add_only": True,
         },
         "engines": [
@@ -145,8 +145,8 @@ def main():
              "serves_properties": ["C05", "C17", "C18"],
              "kind_free_text": "cargo-fuzz 0.13 / libFuzzer on nightly with ASan + debug assertions; bytes decoded into the raw generator structures (vcommon::bytes), oracle inside the target; thorough tiers only, fixed -runs"},
             {"name": "feature-subset-workers", "path": "/verif/harness/vworker",
-             "serves_properties": ["C13"],
-             "kind_free_text": "one transcript worker binary per vaporetto feature subset, length-prefixed stdin/stdout protocol"},
+             "serves_properties": ["C13", "C18"],
+             "kind_free_text": "one transcript worker binary per vaporetto feature subset, length-prefixed stdin/stdout protocol; built a second time with debug assertions for C18"},
         ],
         "checks": checks,
         "not_applicable": na,
